@@ -7,4 +7,6 @@ MCAlternate == << [type |-> "create", key |-> 1, val |-> "x", exp |-> 0], [type 
                   [type |-> "create", key |-> 2, val |-> "x", exp |-> 0] >>
 \* every writer creates key 1 (racing creates over one tombstone / one missing key)
 MCCreateOnly == << [type |-> "create", key |-> 1, val |-> "x", exp |-> 0] >>
+\* every writer deletes key 1
+MCDeleteOnly == << [type |-> "delete", key |-> 1, val |-> "-", exp |-> 0] >>
 ====
